@@ -24,6 +24,8 @@ def run(idx, rep, tier):
     nesterov.r_dtree(idx, rep)
     nesterov.r_tuplerole(idx, rep)
     johnson.r_johnson(idx, rep)
+    johnson.r_parallel(idx, rep)
+    johnson.r_dottable(idx, rep)
     mink.r_mink(idx, rep, modules=[N1, N2, O], floor=4)
     loops.r_loop(idx, rep, [N1, N2, O], floor=5)
     frame.r_frame(idx, rep, e2(idx), modules={N1, N2}, floor=10)      # relative pose oR1 / ot1 of collider 1 in collider 0's frame
